@@ -11,7 +11,7 @@ import ast
 import os
 from dataclasses import dataclass, field as dfield
 from pathlib import Path
-from typing import Dict, Iterator, List, Optional, Tuple
+from typing import Dict, Iterator, List, Optional, Set, Tuple
 
 
 class AnalysisError(Exception):
@@ -245,6 +245,30 @@ def _dec_name(d: ast.expr) -> str:
         return '?'
 
 
+def private_callees(model: 'Model', fi: 'FunctionInfo', cls_name: Optional[str]) -> List[str]:
+    """private functions of the module / private methods of the class hierarchy that `fi` refers to, in source order,
+    each once"""
+    mod = fi.module
+    found: List[Tuple[int, int, str]] = []
+    ci = model.classes.get(cls_name) if cls_name else None
+    meth_names: Set[str] = set()
+    if ci is not None:
+        for c in model.classes.values():
+            if ci in c.mro() or c in ci.mro():
+                meth_names.update(c.methods)
+    for n in ast.walk(fi.node):
+        if isinstance(n, ast.Name) and isinstance(n.ctx, ast.Load) and n.id in mod.functions and n.id.startswith('_') and not n.id.startswith('__'):
+            found.append((n.lineno, n.col_offset, n.id))
+        elif isinstance(n, ast.Attribute) and n.attr in meth_names and n.attr.startswith('_') and not n.attr.startswith('__'):
+            found.append((n.lineno, n.col_offset, n.attr))
+    out: List[str] = []
+    for _, _, name in sorted(found):
+        target = mod.functions.get(name) if cls_name is None else None
+        if name not in out and name != fi.name and target is not fi and not (ci is not None and ci.methods.get(name) is fi):
+            out.append(name)
+    return out
+
+
 class Model:
     def __init__(self, repo: str):
         self.repo = Path(repo)
@@ -256,6 +280,87 @@ class Model:
         self.excluded: List[str] = []
         self._load()
         self._link()
+        self.renamed: Dict[str, str] = {}   # canonical anchor -> name found in the tree
+        self.canon_names: Dict[str, Set[str]] = {}   # name found in the tree -> recorded name(s)
+        self._recognise_renamed_anchors()
+
+    def _recognise_renamed_anchors(self):
+        """A private function / method that the rules anchor on may have been renamed.  oracle/anchors.json records, for
+        the tree the rules were written against, from where each private anchor is called and at which position among
+        the private callees of that caller.  An anchor that is missing is recognised as the function at the same position
+        of the same caller when the caller still has the same number of private callees; the model then presents it
+        under its recorded name (its location stays the real one).  Anything else stays missing."""
+        import json
+        from pathlib import Path as _P
+        tab = _P(__file__).resolve().parent.parent / 'oracle' / 'anchors.json'
+        if not tab.exists():
+            return
+        rows = json.loads(tab.read_text())['anchors']
+        known = {(r['module'], r['class'], r['name']) for r in rows}
+
+        def scope_of(module: str, cls: Optional[str]):
+            mod = self.modules.get(module)
+            if mod is None:
+                return None, None
+            if cls is None:
+                return mod, mod.functions
+            ci = mod.classes.get(cls)
+            return (mod, ci.methods) if ci is not None else (mod, None)
+        for _round in range(4):
+            changed = False
+            for r in rows:
+                mod, scope = scope_of(r['module'], r['class'])
+                if scope is None or r['name'] in scope:
+                    continue
+                cands: Set[str] = set()
+                for v in r['via']:
+                    if 'kind' in v:
+                        ci2 = self.classes.get(v['cls'])
+                        f2 = ci2.field(v['field']) if ci2 is not None else None
+                        cand = None
+                        if f2 is not None and v['kind'] == 'converter' and isinstance(f2.kwargs.get('converter'), ast.Name):
+                            cand = f2.kwargs['converter'].id
+                        elif f2 is not None and v['kind'] == 'validator-call' and isinstance(f2.kwargs.get('validator'), ast.Call) and isinstance(f2.kwargs['validator'].func, ast.Name):
+                            cand = f2.kwargs['validator'].func.id
+                        elif ci2 is not None and v['kind'] == 'validator':
+                            vs = ci2.validators.get(v['field'], [])
+                            if len(vs) == v['of']:
+                                cand = vs[v['index']]
+                        if cand is not None and cand in scope and (r['module'], r['class'], cand) not in known:
+                            cands.add(cand)
+                        continue
+                    cmod, cscope = scope_of(v['module'], v['class'])
+                    if cscope is None:
+                        continue
+                    if v['class'] is not None and v['class'] != r['class']:
+                        # a caller in another class of the hierarchy
+                        pass
+                    cf = cscope.get(v['caller'])
+                    if cf is None:
+                        continue
+                    pc = private_callees(self, cf, v['class'])
+                    if len(pc) != v['of']:
+                        continue
+                    cand = pc[v['index']]
+                    if (r['module'], r['class'], cand) in known or cand not in scope:
+                        continue   # that is another recorded anchor, or defined elsewhere
+                    cands.add(cand)
+                if len(cands) == 1:
+                    new_name = cands.pop()
+                    fi = scope[new_name]
+                    fi.name = r['name']
+                    fi.qualname = (r['class'] + '.' if r['class'] else '') + r['name']
+                    scope[r['name']] = fi
+                    self.renamed[fi.qualname] = new_name
+                    self.canon_names.setdefault(new_name, set()).add(r['name'])
+                    # validators / defaults registered under the new name
+                    if r['class'] is not None:
+                        ci = mod.classes[r['class']]
+                        for fld, vs in ci.validators.items():
+                            ci.validators[fld] = [r['name'] if x == new_name else x for x in vs]
+                    changed = True
+            if not changed:
+                break
 
     # ------------------------------------------------------------------ load
     def _load(self):
@@ -480,6 +585,11 @@ class Model:
         if m is None:
             raise AnalysisError(rule, f'module {name} not found (anchor vanished)')
         return m
+
+    def canon(self, name: str) -> str:
+        """the recorded name of a renamed private anchor (the name itself otherwise)"""
+        c = self.canon_names.get(name)
+        return next(iter(c)) if c and len(c) == 1 else name
 
     def func(self, module: str, name: str, rule: str = 'PM') -> FunctionInfo:
         m = self.module(module, rule)
